@@ -303,6 +303,36 @@ func lazyCase(c *C, r *Root, b []byte) {
 			eg.Clear(fd)
 		}
 	}
+	// write sequences on a still-deferred message: Merge INTO a freshly lazily decoded message from a source whose
+	// submessages are ordinary pointers (eagerly decoded) and from a lazily decoded source; result vs all-eager
+	if c.Rand.Intn(3) == 0 {
+		srcM := newFilled(c, r, false, Opts{FieldProb: 2})
+		if sb, err := partial.Marshal(srcM.Interface()); err == nil {
+			in2 := map[string]any{"type": r.Name, "bytes": vh.Hex(b), "merge_src": vh.Hex(sb)}
+			want := r.MT.New().Interface()
+			if unm(false).Unmarshal(b, want) == nil {
+				wsrc := r.MT.New().Interface()
+				unm(false).Unmarshal(sb, wsrc)
+				proto.Merge(want, wsrc)
+				for _, srcLazy := range []bool{false, true} {
+					dst, src := r.MT.New().Interface(), r.MT.New().Interface()
+					if unm(true).Unmarshal(b, dst) != nil || unm(srcLazy).Unmarshal(sb, src) != nil {
+						continue
+					}
+					proto.Merge(dst, src)
+					c.Check(proto.Equal(dst, want), fmt.Sprintf("Merge into a lazily decoded, untouched message (source lazy=%v) differs from the all-eager result", srcLazy), in2, "")
+					if out, err := partialDet.Marshal(dst); err == nil {
+						wout, _ := partialDet.Marshal(want)
+						re1, re2 := r.MT.New().Interface(), r.MT.New().Interface()
+						unm(false).Unmarshal(out, re1)
+						unm(false).Unmarshal(wout, re2)
+						c.Check(proto.Equal(re1, re2), fmt.Sprintf("Marshal after Merge into a lazily decoded message (source lazy=%v) encodes different content than the all-eager run", srcLazy), in2, "")
+					}
+				}
+				c.Hist("merge-into-deferred")
+			}
+		}
+	}
 	c.Check(proto.Equal(lz.Interface(), eg.Interface()) && proto.Equal(eg.Interface(), lz.Interface()), "proto.Equal(lazy, eager) is false", in, "")
 	ol, oe := observe(r, lz), observe(r, eg)
 	for k, v := range oe {
@@ -478,6 +508,10 @@ func runUnknown(c *C) {
 			for i := 0; i < per/3+1 && !c.Failed(); i++ {
 				m := newFilled(c, r, c.Rand.Intn(2) == 0, Opts{FieldProb: 2, NegZero: true})
 				unknownCase(c, r, m, subT, subFlat, dropped)
+				if i%3 == 0 {
+					m2 := newFilled(c, r, false, Opts{FieldProb: 2, NegZero: true})
+					unknownConcatCase(c, r, m, m2, subT, subFlat, dropped)
+				}
 			}
 		}
 	}
@@ -605,6 +639,52 @@ func denormTags(c *C, b []byte) []byte {
 		rest = rest[tn+vn:]
 	}
 	return out
+}
+
+// unknownConcatCase: the encodings of two messages concatenated — singular message fields then occur in two
+// records each, both carrying fields unknown to the sub-schema: every decoding pass into the same nested message
+// must ADD its unknown fields to those already kept.
+func unknownConcatCase(c *C, r *Root, m, m2 protoreflect.Message, subT protoreflect.MessageType, subFlat *Flat, dropped []string) {
+	in := map[string]any{"type": r.Name, "dropped": dropped, "shape": "two encodings concatenated"}
+	defer c.Recover("unknown fields (concatenated encodings)", in, "")
+	b1, e1 := partialDet.Marshal(m.Interface())
+	b2, e2 := partialDet.Marshal(m2.Interface())
+	if e1 != nil || e2 != nil {
+		return
+	}
+	b := append(append([]byte{}, b1...), b2...)
+	in["bytes"] = vh.Hex(b)
+	merged := m.New().Interface()
+	if unm(false).Unmarshal(b, merged) != nil {
+		return
+	}
+	s := subT.New()
+	if err := unm(false).Unmarshal(b, s.Interface()); err != nil {
+		c.Check(false, "decoding concatenated encodings with a sub-schema fails: "+err.Error(), in, "")
+		return
+	}
+	if c.HasModel() && len(b) < 2500 {
+		subFlat.Send(c)
+		c.Compare("dec: model vs dynamicpb with the sub-schema (concatenated encodings)", in, "ok "+subFlat.Snap(s), c.Ask("dec 0 10000 0 %s", vh.Hex(b)))
+	}
+	rb, err := partial.Marshal(s.Interface())
+	if !c.Check(err == nil, "re-encoding the sub-schema message fails", in, "") {
+		return
+	}
+	for _, mt := range []protoreflect.MessageType{r.MT, r.DT} {
+		back := mt.New()
+		err := unm(false).Unmarshal(rb, back.Interface())
+		c.Check(err == nil && proto.Equal(back.Interface(), merged), "schema evolution over concatenated encodings: decode(full, encode(sub, decode(sub, x||y))) != decode(full, x||y)", in, "")
+	}
+	// Merge:true into a message that already keeps unknown fields
+	s2 := subT.New()
+	if unm(false).Unmarshal(b1, s2.Interface()) == nil {
+		if err := (proto.UnmarshalOptions{AllowPartial: true, Merge: true}).Unmarshal(b2, s2.Interface()); err == nil {
+			c.Check(proto.Equal(s2.Interface(), s.Interface()), "Unmarshal(x) then Unmarshal{Merge}(y) with a sub-schema differs from Unmarshal(x||y)", in, "")
+		}
+	}
+	c.Hist("concat")
+	c.Case(r.Name+string(b)+"concat", hasUnknownAnywhere(s))
 }
 
 func discardSnap(subT protoreflect.MessageType, subFlat *Flat, b []byte) string {
